@@ -383,6 +383,9 @@ type parser struct {
 	badUTF8 bool
 	// escapes counts escape sequences seen in strings.
 	escapes int
+	// noDepthLimit: plain RFC 8259 (no nesting limit) - for outputs, which may
+	// legitimately be nested deeper than any input the codec accepts.
+	noDepthLimit bool
 }
 
 // Info describes lexical facts of a parsed text that the tree does not keep.
@@ -410,6 +413,21 @@ func ParseInfo(s []byte) (*V, Info, error) {
 		return nil, Info{}, fmt.Errorf("trailing data at %d", p.i)
 	}
 	return v, Info{p.lone, p.badUTF8, p.escapes}, nil
+}
+
+// ParseAnyDepth is Parse without the codec's nesting limit.
+func ParseAnyDepth(s []byte) (*V, error) {
+	p := &parser{s: s, noDepthLimit: true}
+	p.ws()
+	v, err := p.value(0)
+	if err != nil {
+		return nil, err
+	}
+	p.ws()
+	if p.i != len(p.s) {
+		return nil, fmt.Errorf("trailing data at %d", p.i)
+	}
+	return v, nil
 }
 
 // Valid is the RFC 8259 recogniser.
@@ -447,7 +465,7 @@ func (p *parser) value0(depth int) (*V, error) {
 	}
 	switch c := p.s[p.i]; {
 	case c == '{':
-		if depth+1 > MaxDepth {
+		if depth+1 > MaxDepth && !p.noDepthLimit {
 			return nil, fmt.Errorf("depth")
 		}
 		p.i++
@@ -493,7 +511,7 @@ func (p *parser) value0(depth int) (*V, error) {
 			return nil, fmt.Errorf(", or } expected at %d", p.i)
 		}
 	case c == '[':
-		if depth+1 > MaxDepth {
+		if depth+1 > MaxDepth && !p.noDepthLimit {
 			return nil, fmt.Errorf("depth")
 		}
 		p.i++
